@@ -31,7 +31,10 @@ def nameChar (P : Prog) (ch : Char) : Prop := ∃ sp ∈ P.screens, ch ∈ sp.na
 
 /-- `ch` occurs in a title or a text of a screen of the application -/
 def textChar (P : Prog) (ch : Char) : Prop :=
-  ∃ sp ∈ P.screens, ∃ t, (sp.title = some t ∨ sp.text = some t) ∧ ch ∈ t
+  ∃ sp ∈ P.screens, ch ∈ sp.title.getD [] ∨ ch ∈ sp.text.getD []
+
+instance (P : Prog) (ch : Char) : Decidable (nameChar P ch) := by unfold nameChar; infer_instance
+instance (P : Prog) (ch : Char) : Decidable (textChar P ch) := by unfold textChar; infer_instance
 
 /-- the characters that can appear on the console: the line break, the blank, the separator character,
 the characters of the framework's literals, the characters of screen names (they are printed as they
@@ -40,6 +43,8 @@ are by the crash dump), and the characters of titles and texts that are not one 
 def allowed (P : Prog) (ch : Char) : Prop :=
   ch = '\n' ∨ ch = ' ' ∨ ch = '=' ∨ ch ∈ frameworkLiterals.flatten ∨ nameChar P ch ∨
     (textChar P ch ∧ isWs6 ch = false)
+
+instance (P : Prog) (ch : Char) : Decidable (allowed P ch) := by unfold allowed; infer_instance
 
 /-! ### the width clause -/
 
